@@ -185,9 +185,10 @@ def alloc_taint(ctx):
 
 # --------------------------------------------------------------------------- READ-ERR-LATCH
 
-@rule('READ-ERR-LATCH', ['C06'], floor=3)
+@rule('READ-ERR-LATCH', ['C06', 'C05', 'C04'], floor=4)
 def read_err_latch(ctx):
-    """A reader that owns LZ decoder state (an LZMADecoder, or a nested LZMAReader) never runs that decoder again
+    """A reader that owns LZ decoder state (an LZMADecoder, or a nested LZMAReader), or that swaps its own
+    source between a decoder chain and the raw container (a `Box<dyn Read>` field: XZReader), never runs again
     after one of its `read` calls returned an error: the decoder is left half-updated by a failed symbol
     (stored distance outside the window, output not flushed, source moved out of `self`), and a second call
     panics or returns garbage as Ok. Structure required: `read` (or the method it forwards to) starts with a
@@ -203,7 +204,7 @@ def read_err_latch(ctx):
         if not adt:
             continue
         ftys = [fl['ty'] for v in adt['variants'][:1] for fl in v['fields']]
-        if not any('LZMADecoder' in t or 'LZMAReader<' in t for t in ftys):
+        if not any('LZMADecoder' in t or 'LZMAReader<' in t or ('Box<(dyn' in t and 'Read' in t) for t in ftys):
             continue
         n += 1
         key = '%s:error-is-sticky' % f.key
